@@ -439,6 +439,9 @@ func CheckMain(id, tier string, self string) int {
 	if n <= 0 {
 		n = 16
 	}
+	if v, err := strconv.Atoi(os.Getenv("VERIF_WORKERS")); err == nil && v > 0 {
+		n = v // experiments only (mutation runs in the background); registered commands never set it
+	}
 	// thorough tier: the workers are built with -cover (run.sh) and leave their counters here
 	coverDir := ""
 	if os.Getenv("VERIF_COVER") != "" {
